@@ -60,11 +60,19 @@ Proof. exact balanced_even. Qed.
 
 (* the specification monitor that judges the implementation's observations in the check (Routing.rmon_check: named -> exactly there
    or refused, key -> existing and stable per (hash, count), balanced -> the cyclic successor of the previous choice, one partition per
-   send, final contents) accepts EVERY run of the model, for every partition count and every history: it never demands more than the
+   send, final contents) accepts EVERY run of the model, for every partition count and every history of sends, partition additions and
+   removals, RESTARTS (the rotation starts over, the contents stay), PURGES (the contents go, the rotation goes on) and sends
+   REFUSED because the topic is full (nothing stored, no partition chosen, the rotation stays): it never demands more than the
    model delivers, so an alarm from it is a behaviour the model does not have *)
 Theorem C17_monitor_accepts_model : forall n ops, N.of_nat n <= MAX_PARTITIONS ->
   rmon_check n (combine ops (map obs_of (snd (rrun (rt_init n) ops)))) (r_parts (fst (rrun (rt_init n) ops))) = 0.
 Proof. exact model_accepted_by_monitor. Qed.
+
+Example C17_monitor_nonvacuous :
+  let ops := [Send Balanced [1]; Send Balanced [2]; SendFull Balanced [3]; Send Balanced [4]; Restart; Send Balanced [5]; Purge; Send Balanced [6]; AddParts 1; Send (PartId 4) [7]] in
+  map rout_code (snd (rrun (rt_init 3) ops)) = [(0, 1); (0, 2); (6, 0); (0, 3); (7, 0); (0, 1); (8, 0); (0, 2); (5, 0); (0, 4)] /\
+  r_parts (fst (rrun (rt_init 3) ops)) = [[]; [6]; []; [7]].
+Proof. vm_compute. split; reflexivity. Qed.
 
 Print Assumptions C17_key_in_range.
 Print Assumptions C17_key_deterministic.
@@ -74,3 +82,4 @@ Print Assumptions C17_balanced_in_range.
 Print Assumptions C17_balanced_rotation.
 Print Assumptions C17_balanced_even.
 Print Assumptions C17_monitor_accepts_model.
+Print Assumptions C17_monitor_nonvacuous.
